@@ -167,7 +167,7 @@ def run(ctx):
                              "paths %s placement %s" % ([pstr(p) for p in order], placement))
         res.count("e2e_overlap_programs", res.evaluations)
         # cycles of length 1..4 through each edge kind
-        kinds = ["call", "keep", "ref", "method"]
+        kinds = ["call", "keep", "ref", "method", "object"]
         for n in range(1, 5):
             combos = list(itertools.product(kinds, repeat=n))
             if not thorough and len(combos) > 12:
@@ -182,9 +182,14 @@ def run(ctx):
                         body = "    return dds.keep('/cyc%d', %s)\n" % (i, nxt)
                     elif kind == "ref":
                         body = "    return apply(%s)\n" % nxt
-                    else:
+                    elif kind == "method":
                         src += "class K%d(object):\n    def m(self):\n        return %s()\n\n" % (i, nxt)
                         body = "    return K%d().m()\n" % i
+                    else:
+                        # the object is built first, the method is called on the variable (the class is then a node of the
+                        # cycle in its own right: function -> class -> method -> function)
+                        src += "class K%d(object):\n    def m(self):\n        return %s()\n\n" % (i, nxt)
+                        body = "    w = K%d()\n    return w.m()\n" % i
                     src += "def c%d():\n    log('c%d')\n%s\n" % (i, i, body)
                 for entry_kind in ("eval", "keep"):
                     entry = (lambda m: dds.eval(m.c0)) if entry_kind == "eval" else (lambda m: dds.keep("/entry", m.c0))
@@ -204,7 +209,7 @@ def run(ctx):
         res.sample({"program": src, "expected": "EVAL_IN_EVAL"})
     res.rule = ("unit: every ordered list of <= 2 (quick: sampled 3) distinct paths over segments {f,g,fg,x} (depth <= 3) plus %d random lists "
                 "of 3..6 paths; end to end: path sets x call orders x placements {flat, helper, inside a kept function}; cycles of length "
-                "1..4 through {plain call, keep, higher-order reference, method} x entry {eval, keep}; nested eval at depth 1..4 via "
+                "1..4 through {plain call, keep, higher-order reference, method call on a fresh object, method call on an object built first} x entry {eval, keep}; nested eval at depth 1..4 via "
                 "{call, keep}; distinct = distinct path list / program shape" % (20000 if thorough else 3000))
     uniq = {}
     for v in res.violations:
